@@ -178,7 +178,10 @@ def bufferSize (S : Swapper) (r : Nat) : Nat :=
       let c1 := (S.topo h1).coords r; let c2 := (S.topo h2).coords r
       let bs1 := prodL ((l1.shape c1).set idx1 (l1.maxShape.getD idx1 0))
       let bs2 := prodL ((l2.shape c2).set idx2 (l2.maxShape.getD idx2 0))
-      if bs1 > bs2 then
+      -- :1101 since the repair of F16 the communicator of the MORE distributed handler is chosen by `n1 < n2`; the earlier
+      -- test `blockSize1 > blockSize2` took the wrong handler (IndexError on that rank only) when both blocks are equally
+      -- small, i.e. on ranks owning empty blocks
+      if n1 < n2 then
         let p := (S.handlerNprocs h2).getD idx2 1
         max acc (bs2 * p)
       else
